@@ -24,6 +24,19 @@ META = dict(
 )
 
 
+def wq_ref(x, alpha, w):
+    """the definition, independent of elfi's function: the least sample value whose cumulative normalised weight reaches alpha
+    (same float normalisation as a straightforward implementation, so exact ties are decided identically)"""
+    x, w = np.asarray(x, dtype=float), np.asarray(w, dtype=float)
+    order = np.argsort(x, kind='stable')
+    if alpha == 0:
+        return float(x[order[0]])
+    cw = np.cumsum((w / np.sum(w))[order])
+    cw[-1] = 1.0
+    k = int(np.argmax(cw >= alpha))
+    return float(x[order][k])
+
+
 def make_model(kind, dim):
     m = elfi.ElfiModel(name='smc')
     if kind == 'uniform':
@@ -140,7 +153,7 @@ def one(ctx, case, reqs, meta):
                 ctx.fail_input(where, 'population %d: threshold %r exceeds the user threshold %r' % (r, float(pop.threshold), want))
                 return
         elif r > 0:
-            want = weighted_sample_quantile(np.asarray(pops[r - 1].discrepancies), c['quantiles'][idx_in_call[r]], weights=np.asarray(pops[r - 1].weights))
+            want = wq_ref(pops[r - 1].discrepancies, c['quantiles'][idx_in_call[r]], pops[r - 1].weights)
             used = c['in_force'][r] if r < len(c.get('in_force', [])) else None
             if used is None or not math.isclose(used, float(want), rel_tol=1e-12, abs_tol=0):
                 ctx.fail_input(where, 'population %d: the threshold in force %r is not the %r-quantile %r of the population immediately before (weighted by its weights)'
@@ -209,6 +222,9 @@ def process(ctx, n):
         case = gen_case(ctx.rng)
         if i < len(forced):                      # every run covers continued sampling after a multi-round call
             case['calls'] = [dict(c) for c in forced[i]]
+        elif i < len(forced) + 3:                # unit weights, population size a power of two, dyadic quantile: the cumulative
+            case['n'] = [8, 16, 32][i - len(forced)]      # weight ties EXACTLY with alpha
+            case['calls'] = [dict(quantiles=[0.5, [0.5, 0.25, 0.75][i - len(forced)]])]
         one(ctx, case, reqs, meta)
     if ctx.driver_ok and reqs:
         for (kind, case, refs), a in zip(meta, ctx.lean.drive(reqs)):
